@@ -575,7 +575,7 @@ func migFaultScenario(r *RunCtx) {
 		r.Fault("disk-io-error-during-startup")
 	}
 	for i, c := range readyCalls {
-		if c != 1 {
+		if c != 1 && !n.ReadyNever {
 			r.Failf("C13", "readiness-announced-wrong-count", fmt.Sprint(c), "ready listener %d registered before Start was called %d times (disk fault at operation %d)", i, c, n.Disk.FailAt)
 		}
 	}
@@ -584,7 +584,8 @@ func migFaultScenario(r *RunCtx) {
 			r.Failf("C13", "readiness-outcomes-differ", "", "listeners were told different migration outcomes: %v", outcomes)
 		}
 	}
-	if len(outcomes) == 0 {
+	if n.ReadyNever || len(outcomes) == 0 {
+		r.Failf("C13", "readiness-never-announced", fmt.Sprintf("fault-fired=%v", fired > 0), "ten simulated minutes after Start no listener registered before Start has been told the outcome of the migration (disk faults fired: %d)", fired)
 		return
 	}
 	m, lerr := n.Mgr.InProgressChannels(context.Background())
